@@ -115,6 +115,21 @@ CHECKS.update({
 NOT_YET = "not yet built in this round (specification and binding under construction; see DESIGN.md section 10)"
 
 
+SUITE = {"C01": "parts", "C03": "values", "C04": "lines", "C05": "join", "C06": "fold", "C07": "text", "C08": "join", "C17": "cdict"}
+FRESH = {"C01", "C03", "C04", "C05", "C07", "C08", "C09", "C10", "C13", "C14", "C15", "C17", "C18", "C19", "C20"}
+
+
+def suffix(pid):
+    out = ""
+    if pid in SUITE:
+        out += ("; SUITE: the calls of the modelled functions observed while the repository's own 8055 tests run (family '%s', "
+                "recorded by a pytest plugin at the call/return boundary) are validated by TLC against the same trace specification" % SUITE[pid])
+    if pid in FRESH:
+        out += ("; FRESH: every behaviour of spec/Fresh.tla (calls, caller mutations, provider switches; shared- and stale-memo variants refuted by "
+                "TLC) replayed on the property's functions, every live handle compared after every step with views computed in a fresh interpreter")
+    return out
+
+
 def main():
     props = [json.loads(l) for l in (V / "properties.jsonl").read_text().splitlines() if l.strip()]
     try:
@@ -139,7 +154,7 @@ def main():
             "engine": c["engine"],
             "level_claimed": {"category": "model_checking", "text": c["text"], "design_ref": c["design"]},
             "level_note": c["note"],
-            "technique": c["technique"],
+            "technique": c["technique"] + suffix(pid),
         })
     man = {
         "version": 1,
